@@ -468,7 +468,9 @@ where
     let res_log_delta = a.log_delta().min(b.log_delta());
 
     let res_offset = (res_log_budget + res_log_delta).saturating_sub(res.max_k().as_usize());
-    let cnv_offset = a.effective_k().max(b.effective_k()) + res_offset;
+    // the product of m_a / 2^lb_a and m_b / 2^lb_b has to land at 2^-res_log_budget:
+    // shift = lb_a + lb_b - (min(lb) - max(ld)) = max(lb) + max(ld)   (equals max(effective_k) only when one operand has both maxima)
+    let cnv_offset = a.log_budget().max(b.log_budget()) + a.log_delta().max(b.log_delta()) + res_offset;
 
     Ok((
         checked_log_budget_sub("mul", res_log_budget, res_offset)?,
